@@ -119,7 +119,7 @@ def l5(ctx: Ctx):
     for lp in loops:
         if isinstance(lp.target, ast.Name):
             lv = lp.target.id
-            if ast_contains(lp, f"PROCEDURE_START_PREFIX.match({lv})") and ast_contains(lp, f"INVOKED_PROCEDURE_NAMES.findall({lv})"):
+            if ast_contains(lp, f"PROCEDURE_START_PREFIX.match({lv})") and (ast_contains(lp, f"INVOKED_PROCEDURE_NAMES.findall({lv})") or ast_contains(lp, f"INVOKED_PROCEDURE_NAMES.findall($f({lv}))")):
                 ok4 = True
     # each procedure text is stored by plain assignment: a name that is loaded twice (the program called like a library
     # procedure) is replaced, not glued onto the first text
@@ -136,7 +136,7 @@ def l5(ctx: Ctx):
         witness="" if oks_ else "ecb_cls.bas containing 10 CLS",
         props=["C13", "C11"],
     )
-    both_here = ast_contains(add, "PROCEDURE_START_PREFIX.match($x)") and ast_contains(add, "INVOKED_PROCEDURE_NAMES.findall($y)")
+    both_here = ast_contains(add, "PROCEDURE_START_PREFIX.match($x)") and ast_contains(add, "INVOKED_PROCEDURE_NAMES.findall($$y)")
     ctx.idiom("load:patterns", both_here, ok4, "" if ok4 else "add_from_str no longer uses the header / RUN patterns line by line", file=PROCBANK_REL, line=add.lineno)
     # the text is cut into lines at line terminators only: any other character may occur inside a string literal.
     # Decided on the *language* of whatever pattern does the cutting (inline or a module-level compiled constant).
@@ -258,6 +258,11 @@ def _cuts_lines(it: ast.AST, env) -> bool:
 def _line_valued(fn_: ast.AST, subj: ast.AST, env, module: Optional[ast.Module] = None) -> Optional[bool]:
     """True: the subject is one line of a newline split; False: it is a whole text (a parameter, a join, a read);
     None: where it comes from is not understood (no verdict)."""
+    if isinstance(subj, ast.Call) and isinstance(subj.func, ast.Name) and len(subj.args) == 1 and not subj.keywords and module is not None and any(isinstance(f, ast.FunctionDef) and f.name == subj.func.id and len(f.args.args) == 1 for f in module.body):
+        # a module-level function of one line (`_code_part(line)`): what it returns is still (part of) that line
+        return _line_valued(fn_, subj.args[0], env, module)
+    if isinstance(subj, (ast.Subscript,)) and isinstance(subj.slice, ast.Slice):
+        return _line_valued(fn_, subj.value, env, module)
     if not isinstance(subj, ast.Name):
         return False if isinstance(subj, ast.Call) and isinstance(subj.func, ast.Attribute) and subj.func.attr in ("join", "read") else None
     params = {a.arg for a in getattr(fn_, "args", ast.arguments(posonlyargs=[], args=[], kwonlyargs=[], kw_defaults=[], defaults=[])).args}
@@ -309,6 +314,55 @@ def _line_valued(fn_: ast.AST, subj: ast.AST, env, module: Optional[ast.Module] 
     binds = [a.value for a in ast.walk(fn_) if isinstance(a, (ast.Assign, ast.AnnAssign)) and a.value is not None and any(isinstance(t, ast.Name) and t.id == subj.id for t in (a.targets if isinstance(a, ast.Assign) else [a.target]))]
     if len(binds) == 1:
         return _line_valued(fn_, binds[0], env, module) if isinstance(binds[0], ast.Name) else (False if isinstance(binds[0], ast.Call) and isinstance(binds[0].func, ast.Attribute) and binds[0].func.attr in ("join", "read") else None)
+    return None
+
+
+def cut_comment(raw: str) -> str:
+    """The checker's own reading of a BASIC09 line: what precedes the first `(*` outside string literals."""
+    q = False
+    for i, ch in enumerate(raw):
+        if ch == '"':
+            q = not q
+        elif not q and raw.startswith("(*", i):
+            return raw[:i]
+    return raw
+
+
+def bank_cuts_comments(ctx: Ctx) -> Optional[bool]:
+    """True: every application of the RUN pattern takes its subject through a step that cuts the line at `(*` outside
+    quotes; False: the pattern is applied to the bare line; None: some other transformation, not understood."""
+    py = pyfacts(ctx)
+    mod = py.mod(PROCBANK_REL).tree
+    uses = _pattern_uses(ctx, "INVOKED_PROCEDURE_NAMES")
+    if not uses:
+        return None
+    verdicts = []
+    for fn_, call_, subj in uses:
+        if isinstance(subj, ast.Name):
+            # a local bound once to helper(line)?
+            binds = [a.value for a in ast.walk(fn_) if isinstance(a, ast.Assign) and len(a.targets) == 1 and isinstance(a.targets[0], ast.Name) and a.targets[0].id == subj.id]
+            if len(binds) == 1 and isinstance(binds[0], ast.Call):
+                subj = binds[0]
+            else:
+                verdicts.append(False)
+                continue
+        if isinstance(subj, ast.Call) and isinstance(subj.func, ast.Name):
+            hf = next((f for f in mod.body if isinstance(f, ast.FunctionDef) and f.name == subj.func.id), None)
+            if hf is None or len(hf.args.args) != 1:
+                verdicts.append(None)
+                continue
+            par = hf.args.args[0].arg
+            consts = {c.value for c in ast.walk(hf) if isinstance(c, ast.Constant) and isinstance(c.value, str)}
+            toggles = any(isinstance(a, ast.Assign) and isinstance(a.value, ast.UnaryOp) and isinstance(a.value.op, ast.Not) for a in ast.walk(hf))
+            cuts = any(isinstance(r, ast.Return) and isinstance(r.value, ast.Subscript) and isinstance(r.value.slice, ast.Slice) and r.value.slice.lower is None and isinstance(r.value.value, ast.Name) and r.value.value.id == par for r in ast.walk(hf))
+            whole = any(isinstance(r, ast.Return) and isinstance(r.value, ast.Name) and r.value.id == par for r in ast.walk(hf))
+            verdicts.append(True if ("(*" in consts and '"' in consts and toggles and cuts and whole) else None)
+        else:
+            verdicts.append(None)
+    if all(v is True for v in verdicts):
+        return True
+    if any(v is False for v in verdicts):
+        return False
     return None
 
 
@@ -381,6 +435,20 @@ def l6(ctx: Ctx):
                 witness='10 A$=STRING$(3,"X")\n20 REM SAY "HI',
                 props=["C13", "C10", "C07"] if nm == "STR_STORAGE_TAG" else ["C13"],
             )
+    # ... and never in a comment: `(* please run ecb_hdraw later *)` is not a call
+    cc = bank_cuts_comments(ctx)
+    if cc is None:
+        ctx.undecided("INVOKED_PROCEDURE_NAMES:comment-free", "the text handed to the RUN pattern is transformed in a way this check does not understand", file=PROCBANK_REL, line=1, props=["C13"])
+    else:
+        ctx.ob(
+            "INVOKED_PROCEDURE_NAMES:comment-free",
+            cc,
+            "" if cc else "the RUN pattern is applied to whole lines, comments included: a REM / ' comment of the user's program (or of the library) that contains the words `run <name>` adds <name> and everything it calls to the bundle although no statement runs it",
+            file=PROCBANK_REL,
+            line=1,
+            witness="" if cc else "10 ' please run ecb_hdraw later",
+            props=["C13"],
+        )
     # the RUN pattern sees a call wherever the tool (or the library) can put one on a line
     py0 = pyfacts(ctx)
     joiners = set()
